@@ -72,6 +72,9 @@ CLAIMS = {
  "C29": ("def-use shape analysis of the credential key (injective struct key vs string concatenation, interprocedural through the key constructor) + edge dominance in ClearNamespaceUsers + sibling agreement insert/lookup + phi-edge pairing in handleHandshakeResponse + wrapper forwarding + who-may-edit (fresh clone) over SSA",
          "Decides the structure of the credential index only: injective key built the same way at insert and lookup, edits confined to `stored namespace == namespace being cleared` and to the iterated key's own components, rebuild = clear own name then add, Check*Password returns the matched element of users[user], Manager wrappers forward unchanged, the session is bound to GetNamespaceByUser(user, matched password), UserManagers are edited only as fresh clones. Not decided: the scramble arithmetic (C30), histories interleaving reloads with handshakes, duplicate (user,password) pairs across namespaces (excluded by the property's own assumption).",
          "The property's assumption (passwords unique per user name) is taken as given.", "§9 C29"),
+ "C30": ("edge dominance of every accepting return by a full bytes.Equal between the response parameter and the scramble call on (salt parameter, candidate of users[user]) + parameter-immutability (no store/copy/append through a slice parameter, module callees followed) over SSA",
+         "Decides only the shape of the acceptance test: which values are compared (this handshake's response and salt, the candidate password), that the comparison is a whole-slice equality, that hashed candidates carry the '*' prefix, and that no check overwrites the response or the salt it shares with the other checks. The SHA1/SHA256 scramble arithmetic, i.e. equality with MySQL's algorithms for all salts and passwords, is a value property and is NOT decided.",
+         "Standard-library hash and bytes functions are assumed not to write their arguments.", "§9 C30"),
  "C31": ("edge dominance + must-pass-through on the prepare/commit gates of the two-slot reload, who-may-write on the slot switch",
          "Decides only the gates: a commit fails without a pending prepare and switches the slot only after consuming it; a prepare always parks a configuration rebuilt from the configuration it was given and sets the prepared flag; the active slot changes only in commit/delete; whoever else overwrites the inactive slot invalidates a pending prepare. The interleaving statement of the property (all histories of prepare/commit/delete, one complete generation per session) is not decided.",
          "", "§4 C31 / §9"),
@@ -99,7 +102,6 @@ NA = {
  "C13": "Value equality per column type between text and binary protocol rows.",
  "C14": "Agreement of the hand-written placeholder scanner with the SQL lexer over all texts (language equivalence over inputs).",
  "C15": "Quantifies over byte values of parameters and sql_mode; escaping correctness is a fact about string contents.",
- "C30": "Equality with the mysql_native_password / caching_sha2 scrambles for all salts and passwords is a cryptographic value property.",
  "C36": "Metamorphic equality of the fingerprint over statement variants is a property of string transformations.",
 }
 
